@@ -184,6 +184,14 @@ class FuncView:
             return self.ctx.callees(self.fi, n)
         if isinstance(f, ast.Name) and any(isinstance(a, ast.Name) and a.id == "self" for a in n.args):
             return self.ctx.callees(self.fi, n)
+        if isinstance(f, ast.Name) and self.fi.cls is not None:
+            # a bound method of self held in a local: `step = self._shrink if keep else self._drop; step(x)`
+            defs = [d.value for d in walk_no_nested(self.fi.node) if isinstance(d, ast.Assign) and len(d.targets) == 1 and isinstance(d.targets[0], ast.Name) and d.targets[0].id == f.id]
+            flat = []
+            for d in defs:
+                flat += [d.body, d.orelse] if isinstance(d, ast.IfExp) else [d]
+            if flat and all(is_self_attr(x) for x in flat):
+                return self.ctx.callees(self.fi, n)
         if self.fi.cls is None:
             # module-level function: tables belong to the parameter object; calls on the same parameter name
             if isinstance(f, ast.Attribute) and isinstance(f.value, ast.Name) and f.value.id in [a.arg for a in self.fi.params]:
@@ -338,7 +346,15 @@ class FuncView:
                         emit("aug", cands, par, n.slice, par.value)
                     else:
                         val = par.value if isinstance(par, (ast.Assign, ast.AnnAssign)) else None
-                        emit("store", cands, par if val is not None else n, n.slice, val)
+                        stmt = par
+                        if isinstance(par, ast.Tuple) and isinstance(par.ctx, ast.Store):
+                            # a, T[k] = x, y : the element of the right-hand tuple at the same position
+                            asg = self.parent.get(id(par))
+                            if isinstance(asg, ast.Assign) and len(asg.targets) == 1 and asg.targets[0] is par:
+                                stmt = asg
+                                i = par.elts.index(n)
+                                val = asg.value.elts[i] if isinstance(asg.value, ast.Tuple) and len(asg.value.elts) == len(par.elts) else asg.value
+                        emit("store", cands, stmt if val is not None else n, n.slice, val)
                 elif isinstance(n.ctx, ast.Del):
                     emit("del", cands, par, n.slice)
                 else:
